@@ -74,4 +74,15 @@ CHECKS = {
             part("c16", "pkg/metric_storage", "TestVerifC16", ["zz_verif_c16_test.go"], shards={"quick": 8, "thorough": 16}),
         ],
     },
+    "C08": {
+        "level": "model_checking",
+        "engine": "E2",
+        "technique": "exhaustive enumeration of per-object event histories x jq filters x event-type subsets on the real informer handler vs gojq reference",
+        "level_text": "The real resourceInformer (handleWatchEvent, cache, applyFilter, jq.ApplyFilter, checksum) is driven with every sequence of up to 3 Added/Modified/Deleted deliveries over a pool of 4 (quick) / 6 (thorough) object states (equal, differing inside / outside the projection, re-delivery of unchanged objects), for 13 jq filters (none, identity, object-, array-, scalar-, null-valued, multi-output, constructed objects), all 8 subsets of event types and both keepFullObjectsInMemory values. Oracle: which deliveries trigger the hook, and what the snapshot shows after every step (last delivered state, filterResult, full object present or not).",
+        "level_note": "Trusted: gojq (the reference projection runs it directly), the reference in the harness. Filters outside the listed grammar and objects outside the pool are not covered.",
+        "rule": "product enumeration filters x event sequences x type subsets x keepFull; non-trivial = sequence of >= 2 deliveries; distinct = distinct (filter, subset, trigger list)",
+        "parts": [
+            part("c08", "pkg/kube_events_manager", "TestVerifC08", ["zz_verif_c08_test.go"], shards={"quick": 12, "thorough": 16}),
+        ],
+    },
 }
